@@ -831,6 +831,9 @@ def run_entry_points(ctl: explorer.Ctl, cfg: Dict[str, Any]) -> Dict[str, Any]:
     from chuk_mcp.protocol.types.errors import NonRetryableError, RetryableError, VersionMismatchError
 
     sup, pref = cfg["list"], cfg["pref"]
+    if cfg["entry"] == "StdioTransport+MCPClient":  # takes no list: the documented default list, no preference
+        from chuk_mcp.protocol.types import versioning as _vs
+        sup, pref = list(_vs.SUPPORTED_VERSIONS), None
     loop = new_loop(horizon=60)
     proc = seams.FakeProcess()
     seen: List[dict] = []
@@ -848,11 +851,33 @@ def run_entry_points(ctl: explorer.Ctl, cfg: Dict[str, Any]) -> Dict[str, Any]:
             if d.get("method") == "initialize":
                 proposed = (d.get("params") or {}).get("protocolVersion")
                 v = proposed if cfg["answer"] == "echo" else cfg["answer"]
-                proc.stdout.feed((json.dumps({"jsonrpc": "2.0", "id": d.get("id"),
-                                              "result": {"protocolVersion": v, **CAPS}}) + "\n").encode())
+                ans = {"jsonrpc": "2.0", "id": d.get("id"), "result": {"protocolVersion": v, **CAPS}}
+                fr = cfg.get("framing", "line")
+                if fr == "line":
+                    wire = ans
+                else:  # the answer as a member of a JSON-RPC batch (no version is known yet, so batches are accepted)
+                    k = int(fr.split("+")[1]) if "+" in fr else 0
+                    trail = [{"jsonrpc": "2.0", "method": "notifications/message",
+                              "params": {"level": "info", "data": f"n{i}"}} for i in range(k)]
+                    wire = (trail[:1] + [ans] + trail[1:]) if fr.startswith("mid") else [ans] + trail
+                proc.stdout.feed((json.dumps(wire) + "\n").encode())
 
     proc.on_stdin = on_stdin
     q = seams.Quiescence(loop)
+
+    from chuk_mcp.transports.stdio.stdio_client import StdioClient as _SC
+
+    clients: List[Any] = []
+    tracked: Dict[str, Any] = {}
+    orig_init = _SC.__init__
+
+    def rec_init(self, *a, **k):
+        orig_init(self, *a, **k)
+        clients.append(self)
+
+    def snapshot(when):
+        # what the connection object the handshake tracks says the instant the caller has the result
+        tracked[when] = [(c.get_protocol_version(), c.is_batching_enabled()) for c in clients]
 
     async def main():
         kw = {"timeout": 2.0, "supported_versions": list(sup), "preferred_version": pref}
@@ -862,6 +887,18 @@ def run_entry_points(ctl: explorer.Ctl, cfg: Dict[str, Any]) -> Dict[str, Any]:
                     from chuk_mcp.transports.stdio.stdio_client import stdio_client_with_initialize
 
                     async with stdio_client_with_initialize(seams.stdio_params(), **kw) as (r, w, init):
+                        snapshot("at-return")
+                        await q.settle()
+                        return ("ok", getattr(init, "protocolVersion", None))
+                elif cfg["entry"] == "StdioTransport+MCPClient":
+                    from chuk_mcp.client.client import MCPClient
+                    from chuk_mcp.transports.stdio.transport import StdioTransport
+
+                    t = StdioTransport(seams.stdio_params())
+                    async with t:
+                        c = MCPClient(t)
+                        init = await c.initialize()
+                        snapshot("at-return")
                         await q.settle()
                         return ("ok", getattr(init, "protocolVersion", None))
                 else:
@@ -870,6 +907,7 @@ def run_entry_points(ctl: explorer.Ctl, cfg: Dict[str, Any]) -> Dict[str, Any]:
                     agen = mcp_client.stdio_client_with_initialize(seams.stdio_params(), **kw)
                     try:
                         r, w, init = await agen.__anext__()
+                        snapshot("at-return")
                         await q.settle()
                         return ("ok", getattr(init, "protocolVersion", None))
                     finally:
@@ -883,7 +921,11 @@ def run_entry_points(ctl: explorer.Ctl, cfg: Dict[str, Any]) -> Dict[str, Any]:
             except BaseException as e:  # noqa: BLE001
                 return ("exception", type(e).__name__)
 
-    status, val = loop.run_main(main())
+    _SC.__init__ = rec_init
+    try:
+        status, val = loop.run_main(main())
+    finally:
+        _SC.__init__ = orig_init
     errors = loop.collect_errors()
     loop.abandon()
     if status != "ok":
@@ -909,6 +951,17 @@ def run_entry_points(ctl: explorer.Ctl, cfg: Dict[str, Any]) -> Dict[str, Any]:
             bad("valid-answer-rejected", f"answer {answered!r} is in the caller's list")
         elif len(notes) != 1:
             bad("initialized-count", f"{len(notes)} initialized notifications on success")
+        else:
+            # the tracked connection object: version and batching mode of the agreed version, when the call returns
+            want_state = (answered, answered < "2025-06-18")
+            got = tracked.get("at-return")
+            if cfg["entry"] == "mcp_client":
+                got = [want_state]  # the compatibility generator runs the plain handshake: its connection is not a tracked one
+            if not got:
+                raise core.HarnessError(f"no connection object observed for {cfg}")
+            if any(g != want_state for g in got):
+                bad("tracked-connection-not-on-the-agreed-version-at-return",
+                    f"the connection object says (version, batching) = {got}, the agreed version calls for {want_state}")
     elif inits:
         if okind == "ok":
             bad("accepted-unoffered-version", f"answer {answered!r} is not in the caller's list {sup}")
@@ -1123,6 +1176,12 @@ def run(tier: str, only=None) -> core.Result:
           for sup in (["2025-06-18"], ["2024-11-05"], ["2025-03-26", "2024-11-05"], ["2099-01-01", "2025-03-26"], ["2024-11-05", "2025-06-18"])
           for pref in (None, sup[-1], "2025-06-18", "1999-12-31")
           for a in ("echo", "2025-06-18", "2024-11-05", "1999-12-31")]
+    ep += [{"entry": e, "list": sup, "pref": None, "answer": a, "framing": fr}
+           for e in ("transports.stdio", "mcp_client", "StdioTransport+MCPClient")
+           for sup in (["2025-06-18", "2024-11-05"], ["2025-03-26"])
+           for a in ("echo", "2024-11-05", "1999-12-31")
+           for fr in (["line", "batch", "batch+1", "batch+3", "mid+2", "batch+150"] if tier == "quick" else
+                      ["line", "batch"] + [f"batch+{k}" for k in (1, 2, 3, 5, 99, 100, 101, 150, 400)] + [f"mid+{k}" for k in (1, 2, 5, 150)])]
     out = explorer.explore(RUN_EP, ep, fidelity=True)
     sched.absorb(res, "stdio-entry-points-taking-the-callers-list", RUN_EP, out, ep)
     lc = late_configs()
